@@ -145,6 +145,13 @@ func (e *enc) declare(prefix, sort string) Term {
 	return n
 }
 
+// declareFun declares a fresh uninterpreted unary function.
+func (e *enc) declareFun(prefix, dom, rng string) Term {
+	n := e.fresh(prefix)
+	e.emit(fmt.Sprintf("(declare-fun %s (%s) %s)", n, dom, rng))
+	return n
+}
+
 func (e *enc) define(prefix, sort string, t Term) Term {
 	n := e.fresh(prefix)
 	e.emit(fmt.Sprintf("(define-fun %s () %s %s)", n, sort, t))
